@@ -36,6 +36,7 @@ pub proof fn lemma_embed_lang(v: NfaV, a: NfaV, off: int, cls: ClsF, x: int, y: 
     requires embeds(v, a, off), nice(a), v_lang(a, cls, x, y, w)
     ensures v_lang(v, cls, x + off, y + off, w)
 {
+    reveal(edges_ok);
     let p = choose|p: VPath| #[trigger] path_from_to(a, cls, p, x, y, w);
     let q = shift_path(p, off);
     assert forall|i: int| 0 <= i < q.labs.len() implies v_edge(v, cls, #[trigger] q.nodes[i], q.labs[i], q.nodes[i + 1]) by {
@@ -74,12 +75,13 @@ pub proof fn lemma_project(v: NfaV, a: NfaV, off: int, cls: ClsF, p: VPath) -> (
         p.nodes[i] == off + a.end || i == p.nodes.len() - 1,
     decreases p.labs.len()
 {
+    lemma_path_len(v, cls, p);
     if p.nodes[0] == off + a.end || p.labs.len() == 0 {
         lemma_lang_refl(a, cls, p.nodes[0] - off);
         assert(p.labs.take(0) =~= Seq::<Option<char>>::empty());
         0
     } else {
-        assert(v_edge(v, cls, p.nodes[0], p.labs[0], p.nodes[1]));
+        assert(v_edge(v, cls, p.nodes[0], p.labs[0], p.nodes[1])) by { reveal(edges_ok); }
         lemma_edge_unshift(v, a, off, cls, p.nodes[0], p.labs[0], p.nodes[1]);
         lemma_path_split(v, cls, p, 1);
         let q = path_skip(p, 1);
